@@ -39,13 +39,31 @@ func vP256() elliptic.Curve { return vC256 }
 func vP384() elliptic.Curve { return vC384 }
 func vP521() elliptic.Curve { return vC521 }
 
-// idealised ECDSA: the signature is an uninterpreted function of (curve size, digest); verification recomputes it
+// idealised ECDSA: the signature is an uninterpreted function of (curve size, digest) carried in a byte string of
+// ANY length the real ASN.1 encoding can have for that curve - SEQUENCE { INTEGER r, INTEGER s } with r, s of at most
+// bits/8+1 content bytes: 8 .. 72 bytes for P-256, .. 104 for P-384, .. 139 for P-521 (long-form length) -, forked
+// over the shortest, the longest and the one below it; verification recomputes the function
+func vDERMax(bits int) int {
+	inner := 2 * (2 + bits/8 + 1)
+	if inner > 127 {
+		return inner + 3
+	}
+	return inner + 2
+}
+
 func vSignASN1(r io.Reader, priv *ecdsa.PrivateKey, hash []byte) ([]byte, error) {
-	return zzverif.UFBytes("ECDSA", 8, []byte{byte(priv.Curve.Params().BitSize / 8)}, hash), nil
+	bits := priv.Curve.Params().BitSize
+	core := zzverif.UFBytes("ECDSA", 8, []byte{byte(bits / 8)}, hash)
+	l := []int{8, vDERMax(bits) - 1, vDERMax(bits)}[zzverif.Choose("der_length", 3)]
+	return append(core, make([]byte, l-8)...), nil
 }
 
 func vVerifyASN1(pub *ecdsa.PublicKey, hash, sig []byte) bool {
-	return zzverif.EqBytes(sig, zzverif.UFBytes("ECDSA", 8, []byte{byte(pub.Curve.Params().BitSize / 8)}, hash))
+	bits := pub.Curve.Params().BitSize
+	if len(sig) < 8 || len(sig) > vDERMax(bits) {
+		return false
+	}
+	return zzverif.EqBytes(sig[:8], zzverif.UFBytes("ECDSA", 8, []byte{byte(bits / 8)}, hash))
 }
 
 // vECKey: a jwk.Key holding an EC key on a given curve (natively a real one)
@@ -82,7 +100,7 @@ func vMakeECKey(bits int) vECKey {
 // verifies under the same name; a key on another curve is a key of the wrong kind: ErrKeyTypeMismatch, no signature,
 // and no successful verification
 //
-//verif:harness prop=C03 name=ecdsa_algorithm_names_curve unwind=20
+//verif:harness prop=C03 name=ecdsa_algorithm_names_curve unwind=200 replay_attempts=8
 func VerifECDSACurve() {
 	algs := []string{Algorithm_ES256, Algorithm_ES384, Algorithm_ES512}
 	bits := []int{256, 384, 521}
